@@ -553,9 +553,19 @@ func main() {
 		if fd := common.FindFunc(run, "", "_panic"); fd != nil {
 			var raisedArgs []string
 			wrapper, ownExec := false, false
+			nilPanics, guardedNilPanics := 0, 0
 			ast.Inspect(fd, func(n ast.Node) bool {
 				switch x := n.(type) {
+				case *ast.IfStmt:
+					// `panic(nil)` is expected for an invalid operand only (the untyped nil literal)
+					if c := str(x.Cond); x.Init == nil && x.Else == nil && len(x.Body.List) == 1 && str(x.Body.List[0]) == "panic(nil)" &&
+						(c == "!args[0].IsValid()" || c == "!v.IsValid()") {
+						guardedNilPanics++
+					}
 				case *ast.CallExpr:
+					if str(x.Fun) == "panic" && len(x.Args) == 1 && str(x.Args[0]) == "nil" {
+						nilPanics++
+					}
 					if str(x.Fun) == "panic" && len(x.Args) == 1 && str(x.Args[0]) != "nil" {
 						raisedArgs = append(raisedArgs, str(x.Args[0]))
 					}
@@ -569,6 +579,9 @@ func main() {
 				}
 				return true
 			})
+			if nilPanics != guardedNilPanics {
+				notes = append(notes, "_panic raises nil under a condition other than `the operand is invalid`: a typed nil operand must be raised as the value it is")
+			}
 			switch {
 			case len(raisedArgs) == 1 && (raisedArgs[0] == "value(f)" || raisedArgs[0] == "args[0]" || raisedArgs[0] == "v"):
 				panicBoxed = "true"
